@@ -676,7 +676,12 @@ impl Monitors {
                     continue;
                 }
                 self.count("rest_points_idle_worker_checked_for_refused_requests", 1);
-                if ws.blocked_requests.is_empty() {
+                if !ws.blocked_requests.is_empty() && ws.blocked_requests_satisfiable_now.is_empty() {
+                    self.count("rest_points_idle_worker_with_refused_request_it_cannot_serve", 1);
+                }
+                // only what the worker's own allocator could serve right now (`is_enabled`, the
+                // predicate the worker uses itself when it takes a refusal back)
+                if ws.blocked_requests_satisfiable_now.is_empty() {
                     continue;
                 }
                 match self.last_end_on.get(&wid) {
@@ -686,8 +691,8 @@ impl Monitors {
                         "C08",
                         "K4-resources-of-canceled-task-not-offered-again",
                         format!(
-                            "at rest worker {wid} runs nothing, the last execution that ended there was the canceled task {t:?}, and the worker still refuses the requests {:?} it turned down while that task held its resources: the server was never told they can be placed there again",
-                            ws.blocked_requests
+                            "at rest worker {wid} runs nothing, the last execution that ended there was the canceled task {t:?}, and the worker still refuses the requests {:?} it turned down while that task held its resources although its allocator can serve them now: the server was never told they can be placed there again",
+                            ws.blocked_requests_satisfiable_now
                         ),
                     ),
                     other => viol(
@@ -695,7 +700,7 @@ impl Monitors {
                         step,
                         "C02",
                         "S5-idle-worker-keeps-refusing-request",
-                        format!("at rest worker {wid} runs nothing but still refuses the requests {:?} (last execution that ended there: {other:?})", ws.blocked_requests),
+                        format!("at rest worker {wid} runs nothing but still refuses the requests {:?} although its allocator can serve them now (last execution that ended there: {other:?})", ws.blocked_requests_satisfiable_now),
                     ),
                 }
             }
